@@ -499,7 +499,7 @@ def observe(t, root: Path, files, report):
     for fn, info in files.items():
         after = (root / fn).read_text()
         n = len(info["sites"])
-        rew = [i for i in range(1, n + 1) if info["stmts"][i - 1] not in after]
+        rew = [i for i in range(1, n + 1) if (t.check(after, i) if t.check else info["stmts"][i - 1] not in after)]
         changes = [(c["lineNumber"], [f["id"] for f in c["findings"]], [f["rule"]["id"] for f in c["findings"]]) for c in chg.get(fn, [])]
         obs["files"][fn] = {"rewritten": rew, "changes": changes, "changed": after != info["src"]}
     return obs
@@ -510,11 +510,12 @@ def e2e_case_term(ctx, t, fn, info, entries, o):
     results = [{"ident": j, "cls": S.RCLASS[t.tool], "rule": e["rule"], "locs": [(e["file"], e["loc"])],
                 "fid": finding_id_for(ctx, t.tool, e)} for j, e in enumerate(open_entries)]
     site_ids = sorted(info["sites"])
-    return ("(mke2e %s %s %s %s %s %s %s %s %s %s %s %s %s)" % (
+    return ("(mke2e %s %s %s %s %s %s %s %s %s %s %s %s %s %s %s %s)" % (
         t.ovr, S.RCLASS[t.tool], clist([cstr(t.rule)], "str"), cstr(fn), c_results(results),
         clist([c_node(x) for x in info["tested"]], "node"), clist([c_node(x) for x in info["cands"]], "node"),
         clist([cpair(cN(i), cZ(info["sites"][i]["line"])) for i in site_ids], "N * Z"),
-        cbool(t.lost_when_enclosed), cN(t.entry_span),
+        cbool(t.lost_when_enclosed), clist([cpair(cZ(a), cZ(b)) for a, b in t.entry], "Z * Z"), clist([cZ(a) for a in t.own], "Z"),
+        cbool(t.ignores_results), cbool(t.only_last),
         clist([cN(i) for i in info["expected"]], "N"), clist([cN(i) for i in o["rewritten"]], "N"),
         clist([cpair(cZ(c[0]), clist([cstr(x) for x in c[1]], "str")) for c in o["changes"]], "Z * list str")))
 
@@ -524,7 +525,11 @@ def classify_sites(t, info, o, model_ok=True):
     written - the object of the `_refuted` theorems - predicts the observation exactly (model_ok)."""
     if not model_ok:
         return "kf_site_selection"
+    if t.ignores_results and info["expected"] and set(info["expected"]) <= set(o["rewritten"]):
+        return f"kf_results_not_consulted:{t.id.split('/')[-1]}"
     missing = [i for i in info["expected"] if i not in o["rewritten"]]
+    if t.only_last and len(info["expected"]) > 1 and o["rewritten"] == [max(info["expected"])]:
+        return f"kf_single_fix_per_file:{t.id.split('/')[-1]}"
     if t.ovr == "FFuzzyCall" and t.lost_when_enclosed and missing and set(o["rewritten"]) <= set(info["expected"]) and \
             all(info["sites"][i].get("wrapped") for i in missing):
         return f"kf_fuzzy_enclosing_call_selected:{t.id.split('/')[-1]}"
@@ -539,10 +544,16 @@ def classify_sites(t, info, o, model_ok=True):
 def classify_findings(t, info, o, entries, fn, model_ok=True):
     if not model_ok:
         return "kf_change_findings"
+    if t.ignores_results and info["expected"]:
+        return f"kf_results_not_consulted:{t.id.split('/')[-1]}"
+    if t.only_last and len(info["expected"]) > 1:
+        return f"kf_single_fix_per_file:{t.id.split('/')[-1]}"
+    if all(d not in t.own for d, _ in t.entry) and info["expected"]:
+        return f"kf_change_entry_off_site_line:{t.id.split('/')[-1]}"
     lines = [info["sites"][i]["line"] for i in info["expected"]]
     if len(set(lines)) < len(lines):
         return "kf_same_line_sites"
-    if t.entry_span > 1 and any(info["sites"][i]["line"] + k in lines for i in info["expected"] for k in range(1, t.entry_span)):
+    if any(info["sites"][i]["line"] + d in lines for i in info["expected"] for d, _ in t.entry if d != 0 and d not in t.own):
         return f"kf_extra_entry_on_following_site_line:{t.id.split('/')[-1]}"
     if t.ovr == "FFuzzyCall" and t.acts_on_any_selected and any(info["sites"][i].get("wrapped") for i in info["expected"]):
         return f"kf_fuzzy_enclosing_call_selected:{t.id.split('/')[-1]}"
